@@ -127,3 +127,1103 @@ def mutate_file(fmt, data, rng, faults=1):
             k, data = mutate_bytes(data, rng)
         kinds.append(k)
     return "+".join(kinds), data
+
+
+# =====================================================================================
+# Structure-aware faults (property C06).  Everything below is deterministic: the systematic
+# generators enumerate "each structure x each truncation length x each boundary value" in a
+# fixed order, the random ones draw from the rng passed in.
+# =====================================================================================
+import os, sys
+sys.path.insert(0, os.path.dirname(os.path.abspath(__file__)))
+
+FREESECT, ENDOFCHAIN, FATSECT, DIFSECT = 0xFFFFFFFF, 0xFFFFFFFE, 0xFFFFFFFD, 0xFFFFFFFC
+
+# ---------------------------------------------------------------- compound files (MS-CFB)
+
+class Cfb:
+    """Tolerant reader of a compound file: enough structure to address every field."""
+    def __init__(self, data):
+        self.data = data
+        self.ok = False
+        if len(data) < 512 or data[:8] != bytes.fromhex("D0CF11E0A1B11AE1"):
+            return
+        shift = struct.unpack_from("<H", data, 30)[0]
+        if shift not in (9, 12):
+            return
+        self.ss = ss = 1 << shift
+        (self.dir_len, self.fat_len, self.dir_start) = struct.unpack_from("<III", data, 40)
+        (self.mini_fat_start, self.mini_fat_len, self.difat_start, self.difat_len) = struct.unpack_from("<IIII", data, 60)
+        self.nsect = max(0, (len(data) - ss + ss - 1) // ss)
+        difat = list(struct.unpack_from("<109I", data, 76))
+        sid, seen = self.difat_start, set()
+        self.difat_sectors = []
+        while sid < 0xFFFFFFFA and sid not in seen and self.sec_off(sid) + ss <= len(data):
+            seen.add(sid)
+            self.difat_sectors.append(sid)
+            ent = list(struct.unpack_from("<%dI" % (ss // 4), data, self.sec_off(sid)))
+            difat += ent[:-1]
+            sid = ent[-1]
+        self.fat_sectors = [x for x in difat if x < DIFSECT and self.sec_off(x) + ss <= len(data)]
+        self.fat = []
+        for s in self.fat_sectors:
+            self.fat += list(struct.unpack_from("<%dI" % (ss // 4), data, self.sec_off(s)))
+        dirbytes, self.dir_chain = self.chain_bytes(self.dir_start)
+        self.dirs = []
+        for i in range(len(dirbytes) // 128):
+            e = dirbytes[i * 128:(i + 1) * 128]
+            nlen = struct.unpack_from("<H", e, 64)[0]
+            name = e[:max(0, min(64, nlen) - 2)].decode("utf-16-le", "replace")
+            typ = e[66]
+            start = struct.unpack_from("<I", e, 116)[0]
+            size = struct.unpack_from("<Q", e, 120)[0] if ss == 4096 else struct.unpack_from("<I", e, 120)[0]
+            sec = self.dir_chain[(i * 128) // ss] if (i * 128) // ss < len(self.dir_chain) else None
+            off = self.sec_off(sec) + (i * 128) % ss if sec is not None else None
+            self.dirs.append({"i": i, "name": name, "typ": typ, "start": start, "size": size, "off": off})
+        self.mini, self.mini_chain = (b"", [])
+        if self.dirs:
+            self.mini, self.mini_chain = self.chain_bytes(self.dirs[0]["start"])
+            self.mini = self.mini[:self.dirs[0]["size"]]
+        mf, self.minifat_chain = self.chain_bytes(self.mini_fat_start) if self.mini_fat_len else (b"", [])
+        self.minifat = list(struct.unpack("<%dI" % (len(mf) // 4), mf[:len(mf) // 4 * 4]))
+        self.ok = True
+
+    def sec_off(self, sid):
+        return (sid + 1) * self.ss
+
+    def chain(self, start, fat=None, limit=None):
+        fat = self.fat if fat is None else fat
+        out, sid = [], start
+        limit = limit or len(fat) + 1
+        while sid < 0xFFFFFFFA and sid < len(fat) and len(out) < limit:
+            out.append(sid)
+            sid = fat[sid]
+        return out
+
+    def chain_bytes(self, start):
+        ch = self.chain(start)
+        b = b"".join(self.data[self.sec_off(s):self.sec_off(s) + self.ss] for s in ch)
+        return b, ch
+
+    def stream(self, d):
+        """bytes of directory entry d (a stream)"""
+        if d["size"] < 4096 and d["i"] != 0:
+            ch = self.chain(d["start"], self.minifat)
+            b = b"".join(self.mini[s * 64:(s + 1) * 64] for s in ch)
+        else:
+            b, _ = self.chain_bytes(d["start"])
+        return b[:d["size"]]
+
+    def streams(self):
+        return [(d["name"], self.stream(d)) for d in self.dirs if d["typ"] == 2]
+
+    def fat_entry_off(self, sid):
+        """file offset of FAT entry sid (None when its FAT sector is not in the file)"""
+        per = self.ss // 4
+        k = sid // per
+        if k >= len(self.fat_sectors):
+            return None
+        return self.sec_off(self.fat_sectors[k]) + (sid % per) * 4
+
+    def minifat_entry_off(self, mid):
+        per = self.ss // 4
+        k = mid // per
+        if k >= len(self.minifat_chain):
+            return None
+        return self.sec_off(self.minifat_chain[k]) + (mid % per) * 4
+
+def patch(data, off, b):
+    return data[:off] + b + data[off + len(b):]
+
+def p16(v):
+    return struct.pack("<H", v & 0xFFFF)
+
+def p32(v):
+    return struct.pack("<I", v & 0xFFFFFFFF)
+
+def cfb_rebuild(streams):
+    """a fresh, valid compound file holding the given streams (flat directory: calamine looks
+    streams up by name only)"""
+    import xlsgen
+    return xlsgen.cfb_wrap(list(streams))
+
+def systematic_cfb(data):
+    """header fields, DIFAT / FAT / mini FAT / directory entries at their boundary values, cycles,
+    dangling ids, truncation around every sector boundary.  Yields (kind, bytes)."""
+    c = Cfb(data)
+    if not c.ok:
+        return
+    n = c.nsect
+    # --- header
+    for off in (24, 26, 28, 30, 32, 34):
+        for v in (0, 1, 6, 8, 9, 10, 12, 13, 0x7FFF, 0xFFFF):
+            yield "cfb-hdr16@%d=%x" % (off, v), patch(data, off, p16(v))
+    ids = [0, 1, 2, max(0, n - 1), n, n + 1, n + 1000, 0x00100000, 0x7FFFFFFF, 0x80000000, 0xFFFFFFF9, 0xFFFFFFFA,
+           DIFSECT, FATSECT, ENDOFCHAIN, FREESECT]
+    for off in (40, 44, 48, 52, 56, 60, 64, 68, 72):
+        for v in ids:
+            yield "cfb-hdr32@%d=%x" % (off, v), patch(data, off, p32(v))
+    # --- DIFAT entries in the header: the used ones (up to 3) and the first free one
+    used = [i for i in range(109) if struct.unpack_from("<I", data, 76 + 4 * i)[0] < DIFSECT]
+    for i in used[:3] + [len(used)] if len(used) < 109 else used[:3]:
+        for v in ids:
+            yield "cfb-difat[%d]=%x" % (i, v), patch(data, 76 + 4 * i, p32(v))
+    # --- a DIFAT sector chain made out of the last sectors of the file: self-loop, 2-cycle, dangling
+    if n >= 3:
+        a, b = n - 1, n - 2
+        def with_last(d, sid, nxt):
+            return patch(d, c.sec_off(sid) + c.ss - 4, p32(nxt))
+        for kind, d in (("self", with_last(data, a, a)),
+                        ("2cycle", with_last(with_last(data, a, b), b, a)),
+                        ("dangling", with_last(data, a, n + 7)),
+                        ("beyond", with_last(data, a, 0x7FFFFFF0)),
+                        ("end", with_last(data, a, ENDOFCHAIN))):
+            d = patch(patch(d, 68, p32(a)), 72, p32(2))
+            yield "cfb-difat-chain-" + kind, d
+        yield "cfb-difat-chain-past-eof", patch(patch(data, 68, p32(n)), 72, p32(1))
+        yield "cfb-difat-chain-partial", patch(patch(data, 68, p32(a)), 72, p32(1))[:c.sec_off(a) + 100]
+    # --- FAT entries of the sectors that matter
+    interesting = []
+    for ch in (c.dir_chain, c.mini_chain, c.minifat_chain, c.fat_sectors):
+        interesting += ch[:3] + ch[-1:]
+    for d in c.dirs[1:6]:
+        if d["typ"] == 2 and d["size"] >= 4096:
+            ch = c.chain(d["start"])
+            interesting += ch[:3] + ch[-1:]
+    seen = set()
+    for s in interesting:
+        if s in seen or c.fat_entry_off(s) is None:
+            continue
+        seen.add(s)
+        prev = [p for p in range(len(c.fat)) if c.fat[p] == s][:1]
+        for v in [s] + prev + ids:
+            yield "cfb-fat[%d]=%x" % (s, v), patch(data, c.fat_entry_off(s), p32(v))
+    # --- mini FAT entries of the first small streams
+    seen = set()
+    for d in c.dirs[1:8]:
+        if d["typ"] == 2 and d["size"] < 4096:
+            ch = c.chain(d["start"], c.minifat)
+            for s in ch[:2] + ch[-1:]:
+                if s in seen or c.minifat_entry_off(s) is None:
+                    continue
+                seen.add(s)
+                prev = [p for p in range(len(c.minifat)) if c.minifat[p] == s][:1]
+                for v in [s] + prev + [0, len(c.minifat), len(c.minifat) + 1, 0x7FFFFFFF, 0xFFFFFFFA, ENDOFCHAIN, FREESECT]:
+                    yield "cfb-minifat[%d]=%x" % (s, v), patch(data, c.minifat_entry_off(s), p32(v))
+    # --- directory entries
+    for d in c.dirs[:10]:
+        if d["off"] is None:
+            continue
+        o = d["off"]
+        for v in (0, 1, 2, 63, 64, 65, 66, 0x7FFF, 0xFFFF):
+            yield "cfb-dir[%d].namelen=%x" % (d["i"], v), patch(data, o + 64, p16(v))
+        for v in (0, 1, 2, 3, 5, 0xFF):
+            yield "cfb-dir[%d].type=%x" % (d["i"], v), patch(data, o + 66, bytes([v]))
+        for v in ids:
+            yield "cfb-dir[%d].start=%x" % (d["i"], v), patch(data, o + 116, p32(v))
+        for v in (0, 1, 63, 64, 65, 4095, 4096, 4097, d["size"] + 1, d["size"] + 64, d["size"] + c.ss, len(data), len(data) * 2,
+                  0x7FFFFFFF, 0x80000000, 0xFFFFFFFF):
+            yield "cfb-dir[%d].size=%x" % (d["i"], v), patch(data, o + 120, p32(v))
+        if c.ss == 4096:
+            for v in (1, 0x7FFFFFFF, 0xFFFFFFFF):
+                yield "cfb-dir[%d].sizehi=%x" % (d["i"], v), patch(data, o + 124, p32(v))
+        yield "cfb-dir[%d].rename" % d["i"], patch(data, o, b"Z\0")
+        yield "cfb-dir[%d].noname" % d["i"], patch(data, o, b"\0" * 64)
+    # --- truncation around sector boundaries and inside the header
+    cuts = set(range(0, 80, 4)) | {76, 77, 511, 512, 513}
+    for s in list(range(0, min(n, 6))) + list(range(max(0, n - 3), n)) + c.dir_chain[:2] + c.fat_sectors[:2] + c.minifat_chain[:1]:
+        o = c.sec_off(s)
+        cuts |= {o - 1, o, o + 1, o + 2, o + 3, o + 4, o + 127, o + 128, o + 129, o + c.ss // 2, o + c.ss - 1}
+    for cut in sorted(x for x in cuts if 0 <= x < len(data)):
+        yield "cfb-truncate@%d" % cut, data[:cut]
+
+# ---------------------------------------------------------------- BIFF record streams (xls)
+
+def biff_records(stream):
+    """[(offset, type, body)] of a BIFF record stream; stops at the first record that does not fit"""
+    out, i = [], 0
+    while i + 4 <= len(stream):
+        t, l = struct.unpack_from("<HH", stream, i)
+        if i + 4 + l > len(stream):
+            break
+        out.append((i, t, stream[i + 4:i + 4 + l]))
+        i += 4 + l
+    return out
+
+def biff_join(recs, fix_from=None):
+    """re-serialises records [(orig offset or None, type, body)]; BoundSheet8 positions (lbPlyPos)
+    that named an original record start are moved to the new start of that record, so that a
+    change of length in the globals does not hide the sheets"""
+    newoff, pos = {}, 0
+    for (o, t, b) in recs:
+        if o is not None and o not in newoff:
+            newoff[o] = pos
+        pos += 4 + len(b)
+    out = []
+    for (o, t, b) in recs:
+        if t == 0x0085 and len(b) >= 4 and o is not None and o != fix_from:
+            old = struct.unpack_from("<I", b, 0)[0]
+            if old in newoff:
+                b = p32(newoff[old]) + b[4:]
+        out.append(struct.pack("<HH", t, len(b) & 0xFFFF) + b)
+    return b"".join(out)
+
+U16VALS = (0, 1, 0x7FFF, 0x8000, 0xFFFE, 0xFFFF)
+U32VALS = (0x7FFFFFFF, 0x80000000, 0xFFFFFFFE, 0xFFFFFFFF)
+
+def body_faults(body, window=40, dense=16):
+    """single faults on one record body: every truncation length inside the window, every 16-bit
+    and 32-bit field position inside the window at its boundary values and just beyond the body.
+    Yields (kind, new body)."""
+    L = len(body)
+    for k in sorted(set(range(0, min(L, window))) | {L // 2, L - 1, L - 2, L - 3}):
+        if 0 <= k < L:
+            yield "trunc%d" % k, body[:k]
+    offs = [o for o in range(0, min(L, window)) if o < dense or o % 2 == 0]
+    for o in offs:
+        if o + 2 <= L:
+            for v in U16VALS + (L & 0xFFFF, (L + 1) & 0xFFFF, (L - o) & 0xFFFF):
+                nb = patch(body, o, p16(v))
+                if nb != body:
+                    yield "u16@%d=%x" % (o, v), nb
+        if o + 4 <= L:
+            for v in U32VALS + (L + 1,):
+                nb = patch(body, o, p32(v))
+                if nb != body:
+                    yield "u32@%d=%x" % (o, v), nb
+        if o < L:
+            for v in (0x00, 0x01, 0x7F, 0x80, 0xFF):
+                if body[o] != v:
+                    yield "u8@%d=%x" % (o, v), patch(body, o, bytes([v]))
+    yield "grow1", body + b"\0"
+    yield "grow7", body + b"\xff" * 7
+
+BIFF_NAMES = {0x0006: "Formula", 0x000A: "EOF", 0x0017: "ExternSheet", 0x0018: "Lbl", 0x0022: "Date1904", 0x002F: "FilePass",
+              0x003C: "Continue", 0x0042: "CodePage", 0x0085: "BoundSheet8", 0x00BD: "MulRk", 0x00E0: "XF", 0x00E5: "MergeCells",
+              0x00EB: "MsoDrawingGroup", 0x00FC: "SST", 0x00FD: "LabelSst", 0x013D: "RRTabId", 0x0200: "Dimensions",
+              0x0203: "Number", 0x0204: "Label", 0x0205: "BoolErr", 0x0207: "String", 0x027E: "RK", 0x041E: "Format",
+              0x0809: "BOF", 0x04BC: "ShrFmla", 0x0221: "Array"}
+# the record types calamine interprets: all their occurrences are candidates, other types only once
+BIFF_READ = set(BIFF_NAMES)
+
+def select_records(recs, key, per_key=1, always=()):
+    """indices of the records to fault: the first per_key occurrences of each key (type, section)"""
+    seen, out = {}, []
+    for i, r in enumerate(recs):
+        k = key(i, r)
+        if k is None:
+            continue
+        seen[k] = seen.get(k, 0) + 1
+        if seen[k] <= per_key or k in always:
+            out.append(i)
+    return out
+
+def systematic_biff(stream, only_read=True, per_key=1):
+    """record-aware single faults on a Workbook stream.  Yields (kind, new stream)."""
+    recs = biff_records(stream)
+    if not recs:
+        return
+    # section = number of BOF records seen so far (0: before, 1: globals, 2..: sheets); only the
+    # first three sections are enumerated
+    section, secs = 0, []
+    for (o, t, b) in recs:
+        if t == 0x0809:
+            section += 1
+        secs.append(section)
+    def key(i, r):
+        if secs[i] > 3:
+            return None
+        if only_read and r[1] not in BIFF_READ:
+            return None
+        return (min(secs[i], 3), r[1])
+    for i in select_records(recs, key, per_key):
+        o, t, b = recs[i]
+        name = "%s#%d" % (BIFF_NAMES.get(t, "%04x" % t), i)
+        base = [(ro, rt, rb) for (ro, rt, rb) in recs]
+        for kind, nb in body_faults(b, window=48 if t in (0x0006, 0x0018, 0x00FC, 0x0017, 0x00E5, 0x04BC) else 28):
+            m = list(base)
+            m[i] = (o, t, nb)
+            yield "biff-%s-%s" % (name, kind), biff_join(m, fix_from=o if t == 0x0085 else None)
+        # the declared length against the bytes that follow (the stream keeps its length)
+        for v in (0, 1, len(b) - 1, len(b) + 1, len(b) + 4, 0x2020, 0x7FFF, 0xFFFF):
+            if 0 <= v <= 0xFFFF and v != len(b):
+                yield "biff-%s-len=%x" % (name, v), patch(stream, o + 2, p16(v))
+        for v in (0x0000, 0x003C, 0x000A, 0x0809, 0x00FC, 0x0006, 0x0018, 0xFFFF):
+            if v != t:
+                yield "biff-%s-type=%x" % (name, v), patch(stream, o, p16(v))
+        yield "biff-%s-delete" % name, biff_join(base[:i] + base[i + 1:])
+        yield "biff-%s-dup" % name, biff_join(base[:i + 1] + [(None, t, b)] + base[i + 1:])
+        yield "biff-%s-empty-continue" % name, biff_join(base[:i + 1] + [(None, 0x003C, b"")] + base[i + 1:])
+        yield "biff-%s-cut-stream" % name, stream[:o + 4 + len(b) // 2]
+        yield "biff-%s-end-stream" % name, stream[:o + 4 + len(b)]
+        yield "biff-%s-cut-header" % name, stream[:o + 2]
+
+def formula_faults(rgce):
+    """token-aware faults on a parsed-formula byte string: cut after every byte, every operand
+    byte pair at its boundaries"""
+    for k in range(len(rgce)):
+        yield "cut%d" % k, rgce[:k]
+    for o in range(len(rgce)):
+        for v in (0x00, 0x01, 0x17, 0x19, 0x22, 0x23, 0x29, 0x3A, 0x42, 0xFF):
+            if rgce[o] != v:
+                yield "b@%d=%x" % (o, v), patch(rgce, o, bytes([v]))
+        if o + 2 <= len(rgce):
+            for v in (0, 0xFFFF, 0x7FFF, 0x8000, 0x01E5, 0x01E4):
+                yield "w@%d=%x" % (o, v), patch(rgce, o, p16(v))
+
+def _w(v):
+    return p16(v)
+
+# hand-made parsed formulas (BIFF8 token layouts): each one aims at one guard of xls parse_formula
+CRAFTED_RGCE_XLS = [
+    b"\x1e\x01\x00" + b"\x22\x01" + _w(0xFFFF),          # PtgFuncVar, 1 argument, unknown function
+    b"\x22\x00" + _w(0xFFFF),                             # PtgFuncVar, no argument, unknown function
+    b"\x22\x00" + _w(485), b"\x42\x00" + _w(0x8001), b"\x21" + _w(485), b"\x21" + _w(0xFFFF),
+    b"\x1e\x01\x00" + b"\x22\xff" + _w(4),                # more arguments than the stack holds
+    b"\x23\x00\x00\x00\x00", b"\x43\xff\xff\xff\xff", b"\x23\x01\x00\x00\x00",   # PtgName 0 / huge / 1
+    b"\x3a" + _w(0xFFFF) + _w(0) + _w(0), b"\x3b" + _w(0xFFFF) + _w(0) * 4, b"\x3c" + _w(9) + _w(0) * 2, b"\x3d" + _w(9) + _w(0) * 4,
+    b"\x17\xff\x01" + b"a" * 10, b"\x17\xff\x00" + b"a" * 10, b"\x17\x00", b"\x17\x05\x01ab", b"\x17",
+    b"\x19\x04" + _w(0xFFFF), b"\x19\x04" + _w(2) + b"\0" * 3, b"\x19\x40\x09\x05", b"\x19\x40\x00", b"\x19\x10", b"\x19\x99\0\0",
+    b"\x19\x40\x00\xff" + b"\x1e\x01\x00", b"\x1e\x01\x00\x19\x40\x00\xff", b"\x1e\x01\x00\x19\x10\x00\x00",
+    b"\x03", b"\x12", b"\x15", b"\x14", b"\x1e\x01\x00" * 3, b"\x1e\x01\x00\x1e\x02\x00\x03\x03",
+    b"\x1c\x99", b"\x1c", b"\x1d", b"\x1e\x01", b"\x1f" + b"\0" * 7, b"\x20" + b"\0" * 6, b"\x18" + b"\0" * 4, b"\x01\0\0\0",
+    b"\x24\xff\xff\xff\xff", b"\x25" + b"\xff" * 8, b"\x2a\0\0\0", b"\x2b" + b"\0" * 7, b"\x39" + b"\0" * 5, b"\xee",
+    b"\x16" * 300 + b"\x22\xff" + _w(4),
+    b"\x17\x02\x00\"\"" + b"\x15" * 200,
+]
+# the same for the xlsb token layouts (32-bit rows, PtgStr with a 16-bit length, PtgMemFunc nesting)
+CRAFTED_RGCE_XLSB = [
+    b"\x1e\x01\x00" + b"\x22\x01" + _w(0xFFFF), b"\x22\x00" + _w(0xFFFF), b"\x22\x00" + _w(485), b"\x42\x00" + _w(0x8001),
+    b"\x21" + _w(485), b"\x21" + _w(0xFFFF), b"\x1e\x01\x00" + b"\x22\xff" + _w(4),
+    b"\x23\x00\x00\x00\x00", b"\x43\xff\xff\xff\xff", b"\x23\x01\x00\x00\x00",
+    b"\x3a" + _w(0xFFFF) + b"\0" * 6, b"\x3b" + _w(0xFFFF) + b"\0" * 12, b"\x3c" + _w(999) + b"\0" * 6, b"\x3d" + _w(999) + b"\0" * 12,
+    b"\x3a" + _w(0), b"\x3b" + _w(0) + b"\0" * 5,
+    b"\x17" + _w(0xFFFF) + b"a\0" * 4, b"\x17" + _w(3) + b"a\0", b"\x17\x00", b"\x17", b"\x17" + _w(0),
+    b"\x18\x19" + b"\0" * 11, b"\x18\x1d\0\0", b"\x18\x99", b"\x18",
+    b"\x19\x04" + b"\0" * 9, b"\x19\x01\0", b"\x19\x10", b"\x19\x99\0\0", b"\x19", b"\x1e\x01\x00\x19\x10\x00\x00",
+    b"\x29" + _w(0xFFFF), b"\x29" + _w(3) + b"\x1e\x01", b"\x29" + _w(0), b"\x29\x01",
+    b"\x03", b"\x12", b"\x15", b"\x1e\x01\x00" * 3, b"\x1c\x99", b"\x1c", b"\x1d", b"\x1e\x01", b"\x1f" + b"\0" * 7,
+    b"\x20" + b"\0" * 13, b"\x01\0\0\0", b"\x24" + b"\xff" * 5, b"\x25" + b"\xff" * 11, b"\x2a" + b"\0" * 5, b"\x2b" + b"\0" * 11,
+    b"\x39" + b"\0" * 5, b"\xee", b"\x16" * 300 + b"\x22\xff" + _w(4),
+]
+
+def split_with_continue(recs, i, k, empty_first):
+    """record i cut at byte k, the rest moved to CONTINUE records (an empty one first if asked)"""
+    o, t, b = recs[i]
+    extra = ([(None, 0x003C, b"")] if empty_first else []) + [(None, 0x003C, b[k:])]
+    return recs[:i] + [(o, t, b[:k])] + extra + recs[i + 1:]
+
+def systematic_biff_formulas(stream, limit=3):
+    """faults inside the rgce of the first Formula / Lbl records"""
+    recs = biff_records(stream)
+    done = {0x0006: 0, 0x0018: 0}
+    for i, (o, t, b) in enumerate(recs):
+        if t == 0x0006 and len(b) >= 22 and done[t] < limit:
+            done[t] += 1
+            cce = struct.unpack_from("<H", b, 20)[0]
+            rg = b[22:22 + cce]
+            for kind, nr in formula_faults(rg):
+                for fixlen in (True, False):
+                    nb = b[:20] + (p16(len(nr)) if fixlen else b[20:22]) + nr + b[22 + cce:]
+                    m = list(recs)
+                    m[i] = (o, t, nb)
+                    yield "biff-Formula#%d-rgce-%s%s" % (i, kind, "" if fixlen else "-cce-kept"), biff_join(m)
+            if done[t] == 1:
+                for k, nr in enumerate(CRAFTED_RGCE_XLS):
+                    nb = b[:20] + p16(len(nr)) + nr
+                    m = list(recs)
+                    m[i] = (o, t, nb)
+                    yield "biff-Formula#%d-rgce-crafted%d" % (i, k), biff_join(m)
+        if t == 0x0018 and len(b) >= 15 and done[t] < limit:
+            done[t] += 1
+            cce = struct.unpack_from("<H", b, 4)[0]
+            if 0 < cce <= len(b) - 14:
+                rg = b[len(b) - cce:]
+                for kind, nr in formula_faults(rg):
+                    nb = b[:4] + p16(len(nr)) + b[6:len(b) - cce] + nr
+                    m = list(recs)
+                    m[i] = (o, t, nb)
+                    yield "biff-Lbl#%d-rgce-%s" % (i, kind), biff_join(m)
+
+def systematic_biff_continues(stream):
+    """strings cut by CONTINUE records: the SST and the first records holding strings are cut at
+    every position of their first bytes, the rest going to a CONTINUE record, with and without an
+    empty CONTINUE record in between"""
+    recs = biff_records(stream)
+    done = set()
+    for i, (o, t, b) in enumerate(recs):
+        if t in (0x00FC, 0x0204, 0x0207, 0x041E, 0x0085, 0x0018) and t not in done and len(b) > 4:
+            done.add(t)
+            for k in sorted(set(range(0, min(len(b), 40))) | set(range(40, len(b), 13))):
+                for empty_first in (False, True):
+                    yield "biff-%s#%d-continue@%d%s" % (BIFF_NAMES.get(t, "%04x" % t), i, k, "-empty" if empty_first else ""), \
+                        biff_join(split_with_continue(recs, i, k, empty_first))
+
+def xls_with_stream(data, name, new_stream):
+    """the compound file `data` rebuilt with stream `name` replaced"""
+    c = Cfb(data)
+    streams = [(n, new_stream if n == name else b) for n, b in c.streams()]
+    return cfb_rebuild(streams)
+
+def xls_workbook_stream(data):
+    c = Cfb(data)
+    if not c.ok:
+        return None, None
+    for n, b in c.streams():
+        if n in ("Workbook", "Book"):
+            return n, b
+    return None, None
+
+def systematic_xls(data, per_key=1):
+    name, stream = xls_workbook_stream(data)
+    if stream is None:
+        return
+    c = Cfb(data)
+    others = [(n, b) for n, b in c.streams()]
+    def wrap(ns):
+        return cfb_rebuild([(n, ns if n == name else b) for n, b in others])
+    for kind, ns in systematic_biff(stream, per_key=per_key):
+        yield kind, wrap(ns)
+    for kind, ns in systematic_biff_formulas(stream):
+        yield kind, wrap(ns)
+    for kind, ns in systematic_biff_continues(stream):
+        yield kind, wrap(ns)
+    # out-of-order and far-apart cells, huge dimensions: the dense range built from them
+    recs = biff_records(stream)
+    cells = [i for i, r in enumerate(recs) if r[1] in (0x0203, 0x027E, 0x00FD, 0x0204, 0x0205) and len(r[2]) >= 6]
+    if cells:
+        i = cells[-1]
+        o, t, b = recs[i]
+        for r, cc in ((0, 0), (0xFFFF, 0), (0, 0xFFFF), (0xFFFF, 0xFFFF), (0xFFFF, 0x00FF)):
+            m = list(recs)
+            m[i] = (o, t, p16(r) + p16(cc) + b[4:])
+            yield "biff-cell#%d-pos=%x,%x" % (i, r, cc), wrap(biff_join(m))
+        if len(cells) > 1:
+            j = cells[0]
+            m = list(recs)
+            m[i], m[j] = (None,) + recs[j][1:], (None,) + recs[i][1:]
+            yield "biff-cells-swapped", wrap(biff_join(m))
+
+# ---------------------------------------------------------------- xlsb record streams
+
+def varint_type(t):
+    return bytes([t]) if t < 0x80 else bytes([(t & 0x7F) | 0x80, (t >> 7) & 0x7F])
+
+def varint_len(n):
+    out = []
+    for _ in range(4):
+        b = n & 0x7F
+        n >>= 7
+        if n:
+            out.append(b | 0x80)
+        else:
+            out.append(b)
+            break
+    return bytes(out)
+
+def xlsb_records(part):
+    """[(offset, type, body, header length)]"""
+    out, i = [], 0
+    while i < len(part):
+        s = i
+        b = part[i]; i += 1
+        t = b
+        if b & 0x80:
+            if i >= len(part):
+                break
+            t = (b & 0x7F) | ((part[i] & 0x7F) << 7); i += 1
+        l, sh = 0, 0
+        for _ in range(4):
+            if i >= len(part):
+                return out
+            b = part[i]; i += 1
+            l |= (b & 0x7F) << sh
+            sh += 7
+            if not b & 0x80:
+                break
+        if i + l > len(part):
+            break
+        out.append((s, t, part[i:i + l], i - s))
+        i += l
+    return out
+
+def xlsb_join(recs):
+    return b"".join(varint_type(t) + varint_len(len(b)) + b for (_, t, b, _) in recs)
+
+# the record types calamine interprets (cells, rows, strings, formats, sheets, names, dimensions,
+# the blocks it skips); the other types only get the faults on their header
+XLSB_READ = {0x0000, 0x0001, 0x0002, 0x0003, 0x0004, 0x0005, 0x0006, 0x0007, 0x0008, 0x0009, 0x000A, 0x000B, 0x0013, 0x0023, 0x0024,
+             0x0025, 0x0026, 0x0027, 0x002C, 0x002F, 0x0081, 0x0085, 0x0086, 0x0090, 0x0091, 0x0092, 0x0093, 0x0094, 0x0099, 0x009C,
+             0x009F, 0x016A, 0x0186, 0x0187, 0x01E5, 0x0267, 0x0269}
+
+def systematic_xlsb_part(part, per_key=1, window=32):
+    recs = xlsb_records(part)
+    seen = {}
+    for i, (o, t, b, hl) in enumerate(recs):
+        # an occurrence counts per (type, type of the record before): the same record type is read
+        # in one block and skipped in another (BrtXF inside cellStyleXfs / cellXfs)
+        k = (t, recs[i - 1][1] if i else None)
+        seen[k] = seen.get(k, 0) + 1
+        if seen[k] > per_key:
+            continue
+        name = "brt%04x#%d" % (t, i)
+        if t in XLSB_READ:
+            for kind, nb in body_faults(b, window=window, dense=12):
+                m = list(recs)
+                m[i] = (o, t, nb, hl)
+                yield "xlsb-%s-%s" % (name, kind), xlsb_join(m)
+        # declared length against the bytes that follow
+        for v in (0, 1, len(b) - 1, len(b) + 1, 0x7F, 0x80, 0x3FFF, 0x4000, 0x0FFFFFFF):
+            if v >= 0 and v != len(b):
+                yield "xlsb-%s-len=%x" % (name, v), part[:o] + varint_type(t) + varint_len(v) + part[o + hl:]
+        yield "xlsb-%s-len-unterminated" % name, part[:o] + varint_type(t) + b"\xff\xff\xff\xff" + part[o + hl:]
+        yield "xlsb-%s-delete" % name, xlsb_join(recs[:i] + recs[i + 1:])
+        yield "xlsb-%s-dup" % name, xlsb_join(recs[:i + 1] + [recs[i]] + recs[i + 1:])
+        yield "xlsb-%s-cut" % name, part[:o + hl + len(b) // 2]
+        yield "xlsb-%s-end" % name, part[:o + hl + len(b)]
+        yield "xlsb-%s-cut-header" % name, part[:o + 1]
+        for v in (0x0000, 0x0002, 0x0007, 0x0008, 0x0009, 0x0027, 0x0094, 0x009C, 0x016A, 0x3FFF):
+            if v != t:
+                m = list(recs)
+                m[i] = (o, v, b, hl)
+                yield "xlsb-%s-type=%x" % (name, v), xlsb_join(m)
+
+def xlsb_formula_faults(part, limit=2):
+    """faults inside the rgce of the first formula cells (BrtFmla*) and names (BrtName)"""
+    recs = xlsb_records(part)
+    n = 0
+    for i, (o, t, b, hl) in enumerate(recs):
+        start = None
+        if t == 0x0009 and len(b) >= 22:
+            start = 18
+        elif t in (0x000A, 0x000B) and len(b) >= 15:
+            start = 11
+        elif t == 0x0008 and len(b) >= 12:
+            cch = struct.unpack_from("<I", b, 8)[0]
+            start = 14 + 2 * cch
+        elif t == 0x0027 and len(b) >= 13:              # BrtName: flags, itab, name, then the formula
+            cch = struct.unpack_from("<I", b, 9)[0]
+            start = 13 + 2 * cch
+        if start is None or start + 4 > len(b):
+            continue
+        cce = struct.unpack_from("<I", b, start)[0]
+        if start + 4 + cce > len(b):
+            continue
+        n += 1
+        if n > limit:
+            break
+        rg = b[start + 4:start + 4 + cce]
+        for kind, nr in formula_faults(rg):
+            nb = b[:start] + p32(len(nr)) + nr + b[start + 4 + cce:]
+            m = list(recs)
+            m[i] = (o, t, nb, hl)
+            yield "xlsb-fmla#%d-rgce-%s" % (i, kind), xlsb_join(m)
+        if n == 1:
+            for k, nr in enumerate(CRAFTED_RGCE_XLSB):
+                nb = b[:start] + p32(len(nr)) + nr + b[start + 4 + cce:]
+                m = list(recs)
+                m[i] = (o, t, nb, hl)
+                yield "xlsb-fmla#%d-rgce-crafted%d" % (i, k), xlsb_join(m)
+        # deeply nested PtgMemFunc
+        for depth in (70, 3000, 21000):
+            nr = b""
+            for _ in range(depth):
+                nr = b"\x29" + p16(len(nr) & 0xFFFF) + nr
+                if len(nr) > 0xFFF0:
+                    break
+            nb = b[:start] + p32(len(nr)) + nr + b[start + 4 + cce:]
+            m = list(recs)
+            m[i] = (o, t, nb, hl)
+            yield "xlsb-fmla#%d-memfunc-depth%d" % (i, depth), xlsb_join(m)
+
+# ---------------------------------------------------------------- zip containers
+
+def zip_members(data):
+    z = zipfile.ZipFile(io.BytesIO(data))
+    return [(i.filename, z.read(i.filename)) for i in z.infolist()]
+
+def zip_build(members, method=zipfile.ZIP_STORED):
+    """stored by default: the inflater is not the subject, and building thousands of archives is"""
+    bio = io.BytesIO()
+    with zipfile.ZipFile(bio, "w", method) as z:
+        for n, b in members:
+            z.writestr(zipfile.ZipInfo(n), b, zipfile.ZIP_STORED if n == "mimetype" else method)
+    return bio.getvalue()
+
+def zip_replace(members, name, body):
+    return zip_build([(n, body if n == name else b) for n, b in members])
+
+READ_PARTS = re.compile(r"(^xl/(workbook|sharedStrings|styles)\.(xml|bin)$|^xl/_rels/workbook\.(xml|bin)\.rels$|^xl/(work|chart|macro|dialog)sheets/[^/]*\.(xml|bin)$|"
+                        r"^xl/worksheets/_rels/.*\.rels$|^xl/tables/.*\.xml$|^xl/vbaProject\.bin$|^content\.xml$|^META-INF/manifest\.xml$|^mimetype$|^styles\.xml$)")
+
+def systematic_zip_container(data):
+    """faults on the container itself: parts dropped, emptied, renamed (case), declared sizes"""
+    try:
+        members = zip_members(data)
+    except Exception:
+        return
+    for n, b in members:
+        if not READ_PARTS.search(n):
+            continue
+        yield "zip-drop:" + n, zip_build([(m, x) for m, x in members if m != n])
+        yield "zip-empty:" + n, zip_replace(members, n, b"")
+        yield "zip-rename:" + n, zip_build([(m + ".x" if m == n else m, x) for m, x in members])
+        yield "zip-dup:" + n, zip_build(members + [(n, b"")])
+    # declared uncompressed sizes in the central directory and the local headers
+    i = 0
+    k = 0
+    while True:
+        i = data.find(b"PK\x01\x02", i)
+        if i < 0 or k > 12:
+            break
+        for v in (0, 1, 0x7FFFFFFF, 0xFFFFFFFE):
+            yield "zip-cd[%d].usize=%x" % (k, v), patch(data, i + 24, p32(v))
+            yield "zip-cd[%d].csize=%x" % (k, v), patch(data, i + 20, p32(v))
+        yield "zip-cd[%d].offset" % k, patch(data, i + 42, p32(0x7FFFFFFF))
+        yield "zip-cd[%d].method" % k, patch(data, i + 10, p16(99))
+        i += 4
+        k += 1
+    e = data.rfind(b"PK\x05\x06")
+    if e >= 0:
+        for off, w in ((8, 2), (10, 2), (12, 4), (16, 4), (20, 2)):
+            for v in (0, 1, 0xFFFF, 0x7FFFFFFF, 0xFFFFFFFF):
+                yield "zip-eocd@%d=%x" % (off, v), patch(data, e + off, p32(v)[:w])
+    for cut in (0, 1, 4, 29, 30, 31, len(data) // 2, max(0, e), max(0, e + 4), len(data) - 1):
+        yield "zip-truncate@%d" % cut, data[:cut]
+
+# ---------------------------------------------------------------- XML parts
+
+ATTR_VALUES = [b"", b"0", b"1", b"-1", b"A1:XFD1048576", b"2147483648", b"4294967295", b"4294967296", b"18446744073709551615",
+               b"99999999999999999999", b"1e400", b"x", b"A0", b"1A", b"A1:", b":", b"A1:B2:C3", b"B2:A1", b"XFD1048577",
+               b"ZZZZZZZ99999999999", b"A4294967295", b"A4294967296", b"FXSHRXX1", b"$A$1", b"&#0;", b"&bogus;", b"\xff\xfe"]
+TEXT_VALUES = [b"", b"0", b"-1", b"4294967295", b"4294967296", b"99999999999999999999", b"1e400", b"nan", b"x",
+               b"&#xFFFFFFFF;", b"&bogus;", b"<![CDATA[", b"<x>", b"\xff\xfe", b"A" * 70000]
+START_TAG = re.compile(rb'<([A-Za-z_][\w:.-]*)((?:\s+[A-Za-z_:][\w:.-]*\s*=\s*"[^"<]*")*)\s*(/?)>')
+ATTR_RE = re.compile(rb'\s+([A-Za-z_:][\w:.-]*)\s*=\s*"([^"<]*)"')
+TEXT_EL = re.compile(rb'<([A-Za-z_][\w:.-]*)((?:\s[^<>]*)?)>([^<]+)</\1>')
+
+def systematic_xml(part, extra_attrs=()):
+    """single faults on one XML part.  Yields (kind, new part)."""
+    n = len(part)
+    # --- truncation at tag boundaries and inside tags
+    ends = [m.end() for m in re.finditer(rb">", part)]
+    pick = set(ends[:25]) | set(ends[-6:]) | set(ends[:: max(1, len(ends) // 25)])
+    starts = [m.start() for m in re.finditer(rb"<", part)]
+    for s in starts[:12] + starts[len(starts) // 2: len(starts) // 2 + 4]:
+        pick |= {s + 1, s + 3}
+    for m in list(ATTR_RE.finditer(part))[:6]:
+        pick |= {m.start(2), m.start(2) + 1, m.end(2)}
+    for cut in sorted(pick | {0, 1, 5, n - 1}):
+        if 0 <= cut < n:
+            yield "xml-cut@%d" % cut, part[:cut]
+    # --- attribute values: each distinct (element, attribute) pair, first occurrence
+    seen = set()
+    for m in START_TAG.finditer(part):
+        el = m.group(1)
+        for a in ATTR_RE.finditer(m.group(2)):
+            k = (el, a.group(1))
+            if k in seen:
+                continue
+            seen.add(k)
+            s, e = m.start(2) + a.start(2), m.start(2) + a.end(2)
+            for v in ATTR_VALUES:
+                if v != a.group(2):
+                    yield "xml-attr:%s@%s=%s" % (el.decode(), a.group(1).decode(), v[:24].decode("latin1")), part[:s] + v + part[e:]
+            yield "xml-attr-drop:%s@%s" % (el.decode(), a.group(1).decode()), part[:m.start(2) + a.start()] + part[m.start(2) + a.end():]
+            yield "xml-attr-dup:%s@%s" % (el.decode(), a.group(1).decode()), part[:m.start(2) + a.end()] + a.group(0) + part[m.start(2) + a.end():]
+            yield "xml-attr-unquoted:%s@%s" % (el.decode(), a.group(1).decode()), part[:e] + part[e + 1:]
+    # --- attributes the readers look for, added where they are absent
+    seen_el = set()
+    for m in START_TAG.finditer(part):
+        el = m.group(1)
+        if el in seen_el:
+            continue
+        seen_el.add(el)
+        for (an, av) in extra_attrs:
+            if not re.search(rb"\s" + re.escape(an) + rb"\s*=", m.group(2)):
+                ins = b' ' + an + b'="' + av + b'"'
+                yield "xml-attr-add:%s@%s=%s" % (el.decode(), an.decode(), av[:20].decode("latin1")), part[:m.end(1)] + ins + part[m.end(1):]
+    # --- element text
+    seen = set()
+    for m in TEXT_EL.finditer(part):
+        if m.group(1) in seen:
+            continue
+        seen.add(m.group(1))
+        for v in TEXT_VALUES:
+            yield "xml-text:%s=%s" % (m.group(1).decode(), v[:16].decode("latin1")), part[:m.start(3)] + v + part[m.end(3):]
+    # --- structure: each distinct element, first occurrence: start tag dropped, end tag dropped,
+    #     renamed (first / all), self-closed, nested into itself
+    seen = set()
+    for m in START_TAG.finditer(part):
+        el = m.group(1)
+        if el in seen:
+            continue
+        seen.add(el)
+        d = el.decode()
+        yield "xml-start-drop:" + d, part[:m.start()] + part[m.end():]
+        close = b"</" + el + b">"
+        c = part.find(close, m.end())
+        if c >= 0:
+            yield "xml-end-drop:" + d, part[:c] + part[c + len(close):]
+            yield "xml-end-dup:" + d, part[:c] + close + part[c:]
+            yield "xml-content-drop:" + d, part[:m.end()] + part[c:]
+            yield "xml-element-drop:" + d, part[:m.start()] + part[c + len(close):]
+            yield "xml-element-dup:" + d, part[:c + len(close)] + part[m.start():c + len(close)] + part[c + len(close):]
+        yield "xml-rename-first:" + d, part[:m.start(1)] + b"zz" + part[m.end(1):]
+        yield "xml-rename-all:" + d, part.replace(b"<" + el + b" ", b"<zz ").replace(b"<" + el + b">", b"<zz>").replace(close, b"</zz>")
+        yield "xml-prefix-all:" + d, part.replace(b"<" + el + b" ", b"<q:" + el + b" ").replace(b"<" + el + b">", b"<q:" + el + b">").replace(close, b"</q:" + el + b">")
+        if not m.group(3):
+            yield "xml-selfclose:" + d, part[:m.end() - 1] + b"/>" + part[m.end():]
+        yield "xml-nest-5000:" + d, part[:m.end()] + b"<n>" * 5000 + part[m.end():]
+        yield "xml-nest-closed-5000:" + d, part[:m.end()] + b"<n>" * 5000 + b"</n>" * 5000 + part[m.end():]
+        yield "xml-unterminated-cdata:" + d, part[:m.end()] + b"<![CDATA[" + part[m.end():]
+        yield "xml-unterminated-comment:" + d, part[:m.end()] + b"<!--" + part[m.end():]
+        yield "xml-unterminated-pi:" + d, part[:m.end()] + b"<?" + part[m.end():]
+        yield "xml-doctype-entity:" + d, part[:m.start()] + b'<!DOCTYPE x [<!ENTITY a "aaaaaaaaaa"><!ENTITY b "&a;&a;&a;&a;&a;&a;&a;&a;">]>' + part[m.start():]
+    yield "xml-empty", b""
+    yield "xml-bom16", b"\xff\xfe" + part
+    yield "xml-not-xml", b"\x00\x01\x02PK\x03\x04" * 8
+    yield "xml-encoding-utf16-declared", part.replace(b'encoding="UTF-8"', b'encoding="UTF-16"', 1)
+
+XLSX_EXTRA = [(b"r", b"ZZZZZZZ99999999999"), (b"r", b"A4294967295"), (b"r", b""), (b"t", b"s"), (b"t", b"shared"), (b"t", b"zz"), (b"s", b"99999999"),
+              (b"si", b"4294967296"), (b"si", b"0"), (b"ref", b"A1:XFD1048576"), (b"ref", b"B2:A1"), (b"count", b"4294967295"),
+              (b"uniqueCount", b"4294967295"), (b"headerRowCount", b"4294967295"), (b"totalsRowCount", b"4294967295"),
+              (b"insertRow", b"1"), (b"numFmtId", b"4294967296"), (b"date1904", b"x"), (b"state", b"x"), (b"r:id", b"rId999"),
+              (b"Target", b"../../../x"), (b"Target", b"/"), (b"Target", b""), (b"Id", b"")]
+ODS_EXTRA = [(b"table:number-columns-repeated", b"4294967295"), (b"table:number-columns-repeated", b"18446744073709551615"),
+             (b"table:number-columns-repeated", b"0"), (b"table:number-columns-repeated", b"-1"),
+             (b"table:number-rows-repeated", b"4294967295"), (b"table:number-rows-repeated", b"18446744073709551615"),
+             (b"table:number-rows-repeated", b"0"), (b"table:number-rows-repeated", b"x"),
+             (b"text:c", b"4294967295"), (b"text:c", b"-1"), (b"office:value", b"x"), (b"office:value", b"1e999"),
+             (b"office:value-type", b"string"), (b"office:value-type", b"zz"), (b"table:display", b"x"), (b"table:name", b""),
+             (b"table:formula", b"of:=[.A99999999999]"), (b"office:boolean-value", b"x"), (b"office:date-value", b""),
+             (b"table:style-name", b"zz")]
+
+def systematic_zip_xml(fmt, data, max_parts=8):
+    try:
+        members = zip_members(data)
+    except Exception:
+        return
+    parts = [(n, b) for n, b in members if READ_PARTS.search(n) and (n.endswith((".xml", ".rels")) or b[:5] == b"<?xml")]
+    # one sheet part is enough for the systematic pass (the biggest), all the other read parts
+    sheets = sorted([p for p in parts if "sheets/" in p[0] and p[0].endswith(".xml")], key=lambda p: -len(p[1]))
+    keep = [p for p in parts if p not in sheets] + sheets[:1]
+    extra = ODS_EXTRA if fmt == "ods" else XLSX_EXTRA
+    for n, b in keep[:max_parts]:
+        for kind, nb in systematic_xml(b, extra):
+            yield "%s@%s" % (kind, n), zip_replace(members, n, nb)
+
+def crafted_xlsx_layouts(data):
+    """package layouts that are legal but unusual: the first sheet stored directly in xl/ (its
+    relationships then point above a folder that has no parent), absolute and empty targets"""
+    try:
+        members = zip_members(data)
+    except Exception:
+        return
+    names = [n for n, _ in members]
+    sheets = sorted(n for n in names if re.match(r"^xl/worksheets/[^/]*\.xml$", n))
+    if not sheets or "xl/_rels/workbook.xml.rels" not in names:
+        return
+    sh = sheets[0]
+    base = sh.rsplit("/", 1)[1]
+    for s_ in sheets:
+        if ("xl/worksheets/_rels/" + s_.rsplit("/", 1)[1] + ".rels") in names:
+            sh, base = s_, s_.rsplit("/", 1)[1]       # prefer a sheet that has relationships (tables)
+            break
+    rels = "xl/worksheets/_rels/" + base + ".rels"
+    out = []
+    for n, b in members:
+        if n == sh:
+            out.append(("xl/" + base, b))
+        elif n == rels:
+            out.append(("xl/_rels/" + base + ".rels", b))
+        elif n == "xl/_rels/workbook.xml.rels":
+            out.append((n, b.replace(b'Target="worksheets/' + base.encode() + b'"', b'Target="' + base.encode() + b'"')))
+        else:
+            out.append((n, b))
+    yield "xlsx-sheet-directly-in-xl", zip_build(out)
+    out2 = [(n, b.replace(b'Target="worksheets/', b'Target="/xl/worksheets/') if n == "xl/_rels/workbook.xml.rels" else b) for n, b in members]
+    yield "xlsx-absolute-sheet-targets", zip_build(out2)
+    out3 = [(n, b.replace(b'Target="../', b'Target="../../../') if n == rels else b) for n, b in members]
+    yield "xlsx-table-target-above-root", zip_build(out3)
+
+def systematic_xlsb(data, per_key=1):
+    try:
+        members = zip_members(data)
+    except Exception:
+        return
+    bins = [(n, b) for n, b in members if READ_PARTS.search(n) and n.endswith(".bin") and "vbaProject" not in n]
+    def nformulas(part):
+        return sum(1 for r in xlsb_records(part) if r[1] in (0x0008, 0x0009, 0x000A, 0x000B))
+    # the record faults go to the sheet with the most kinds of cells (formula cells first, then
+    # size); the formula faults to every sheet that has a formula
+    sheets = sorted([p for p in bins if "sheets/" in p[0]], key=lambda p: (-nformulas(p[1]), -len(p[1])))
+    keep = [p for p in bins if p not in sheets] + sheets[:1]
+    for n, b in keep:
+        for kind, nb in systematic_xlsb_part(b, per_key=per_key):
+            yield "%s@%s" % (kind, n), zip_replace(members, n, nb)
+    for n, b in [p for p in bins if p not in sheets] + sheets:
+        for kind, nb in xlsb_formula_faults(b, limit=2 if (n, b) in keep else 1):
+            yield "%s@%s" % (kind, n), zip_replace(members, n, nb)
+    for n, b in keep:
+        if "sheets/" in n:
+            # the readers reuse one buffer across records: a short record right at the start of a
+            # part finds no longer record before it whose bytes could hide the missing ones
+            recs = xlsb_records(b)
+            for t in (0x0094, 0x0091, 0x0000, 0x0002, 0x0007, 0x0009):
+                for k in (0, 1, 3, 7, 15):
+                    first = [r for r in recs if r[1] == t][:1]
+                    body = (first[0][2] if first else b"\0" * 16)[:k]
+                    yield "xlsb-first-record-brt%04x-len%d@%s" % (t, k, n), zip_replace(members, n, varint_type(t) + varint_len(len(body)) + body + b)
+    for n, b in members:
+        if n.endswith(".rels") and READ_PARTS.search(n):
+            for kind, nb in systematic_xml(b, XLSX_EXTRA):
+                yield "%s@%s" % (kind, n), zip_replace(members, n, nb)
+
+# ---------------------------------------------------------------- VBA projects (MS-OVBA)
+
+def ovba_decompress(s):
+    """reference decompressor (returns None on a malformed container)"""
+    if not s or s[0] != 1:
+        return None
+    out, i = bytearray(), 1
+    while i < len(s):
+        if i + 2 > len(s):
+            return None
+        h = struct.unpack_from("<H", s, i)[0]
+        i += 2
+        size, flag = (h & 0x0FFF) + 3, h >> 15
+        end = min(len(s), i + size - 2)
+        start = len(out)
+        if not flag:
+            out += s[i:i + 4096]
+            i += 4096
+            continue
+        while i < end:
+            fb = s[i]; i += 1
+            for bit in range(8):
+                if i >= end:
+                    break
+                if not (fb >> bit) & 1:
+                    out.append(s[i]); i += 1
+                else:
+                    if i + 2 > len(s):
+                        return None
+                    tok = struct.unpack_from("<H", s, i)[0]; i += 2
+                    d = len(out) - start
+                    bc = max(4, (d - 1).bit_length()) if d > 0 else 4
+                    lm = 0xFFFF >> bc
+                    ln, off = (tok & lm) + 3, (tok >> (16 - bc)) + 1
+                    if off > len(out):
+                        return None
+                    for _ in range(ln):
+                        out.append(out[-off])
+    return bytes(out)
+
+def ovba_compress(b):
+    """literal-only compressed container"""
+    out = bytearray([1])
+    for k in range(0, len(b), 4096):
+        chunk = b[k:k + 4096]
+        body = bytearray()
+        for j in range(0, len(chunk), 8):
+            body.append(0)
+            body += chunk[j:j + 8]
+        out += struct.pack("<H", 0xB000 | (len(body) + 2 - 3)) + body
+    return bytes(out)
+
+def dir_records(d):
+    """[(offset, id, size, data offset)] of a decompressed dir stream, as far as the generic
+    id/size/data layout holds (PROJECTVERSION and the reference records need special casing)"""
+    out, i = [], 0
+    while i + 6 <= len(d):
+        rid, size = struct.unpack_from("<HI", d, i)
+        if rid == 0x0009:
+            out.append((i, rid, size, i + 6)); i += 12; continue
+        if rid in (0x000F, 0x0010, 0x002B):
+            out.append((i, rid, size, i + 6)); i += 6 + (size if rid != 0x002B else 0)
+            if rid == 0x002B:
+                pass
+            continue
+        if i + 6 + size > len(d):
+            break
+        out.append((i, rid, size, i + 6))
+        i += 6 + size
+    return out
+
+def systematic_vba_streams(streams):
+    """faults on the streams of a VBA project [(name, bytes)]: the dir stream (decompressed,
+    record by record, then recompressed), the compressed containers themselves, module offsets.
+    Yields (kind, new streams)."""
+    names = [n for n, _ in streams]
+    if "dir" not in names:
+        return
+    raw = dict(streams)["dir"]
+    def repl(name, body):
+        return [(n, body if n == name else b) for n, b in streams]
+    d = ovba_decompress(raw)
+    if d:
+        for k in sorted(set(range(0, min(len(d), 120))) | set(range(120, len(d), 7)) | {len(d) - 1}):
+            yield "vba-dir-cut%d" % k, repl("dir", ovba_compress(d[:k]))
+        for (o, rid, size, doff) in dir_records(d):
+            for v in (0, 1, max(0, size - 1), size + 1, len(d) - doff + 1, 0x7FFFFFFF, 0xFFFFFFFF):
+                if v != size:
+                    yield "vba-dir-rec%04x@%d-size=%x" % (rid, o, v), repl("dir", ovba_compress(patch(d, o + 2, p32(v))))
+            for v in (0x0000, 0x000F, 0x0016, 0x002F, 0x0033, 0x000D, 0x000E, 0x0019, 0x0021, 0x002B, 0xFFFF):
+                if v != rid:
+                    yield "vba-dir-rec%04x@%d-id=%x" % (rid, o, v), repl("dir", ovba_compress(patch(d, o, p16(v))))
+            if rid == 0x0031 and size == 4:
+                for v in (1, 0x1000, 0x7FFFFFFF, 0xFFFFFFFF):
+                    yield "vba-dir-moduleoffset=%x" % v, repl("dir", ovba_compress(patch(d, doff, p32(v))))
+            if rid == 0x0003 and size == 2:
+                for v in (0, 1, 1200, 65001, 0xFFFF):
+                    yield "vba-dir-codepage=%d" % v, repl("dir", ovba_compress(patch(d, doff, p16(v))))
+            if rid == 0x000F and size == 2:
+                for v in (0, 1, 0x7FFF, 0xFFFF):
+                    yield "vba-dir-modulecount=%x" % v, repl("dir", ovba_compress(patch(d, doff, p16(v))))
+    # the compressed containers: signature, chunk headers, tokens
+    for name in ["dir"] + [n for n in names if n not in ("dir", "PROJECT", "PROJECTwm", "_VBA_PROJECT")][:2]:
+        s = dict(streams)[name]
+        base = 0
+        if name != "dir":
+            i = s.find(b"\x01", 0)
+            # the compressed source starts at MODULEOFFSET: search the container signature followed by a chunk header
+            for j in range(len(s) - 2):
+                if s[j] == 1 and (s[j + 2] & 0x70) == 0x30:
+                    base = j
+                    break
+        c = s[base:]
+        for kind, nc in container_faults(c):
+            yield "vba-%s-%s" % (name, kind), repl(name, s[:base] + nc)
+
+def container_faults(c):
+    """faults on one compressed container"""
+    yield "empty", b""
+    yield "sig-only", c[:1]
+    yield "sig0", b"\x00" + c[1:]
+    for k in sorted(set(range(1, min(len(c), 24))) | {len(c) - 1, len(c) - 2, len(c) // 2}):
+        if 0 < k < len(c):
+            yield "cut%d" % k, c[:k]
+    if len(c) >= 3:
+        h = struct.unpack_from("<H", c, 1)[0]
+        for v in (0x0000, 0x3000, 0xB000, 0xBFFF, 0x3FFF, 0x8000, 0xFFFF, h ^ 0x8000, h ^ 0x1000, (h & 0xF000) | 0x0FFF, (h & 0xF000)):
+            yield "hdr=%04x" % v, c[:1] + p16(v) + c[3:]
+    # hand-made chunks: copy token at the start of the output, copy tokens only, raw chunk cut short
+    yield "copy-first", b"\x01" + p16(0xB000 | 2) + b"\x01" + p16(0x0000)
+    yield "copy-first-far", b"\x01" + p16(0xB000 | 2) + b"\x01" + p16(0xFFFF)
+    yield "copy-after-1", b"\x01" + p16(0xB000 | 3) + b"\x02" + b"a" + p16(0xF000)
+    yield "copy-long", b"\x01" + p16(0xB000 | 3) + b"\x02" + b"a" + p16(0x0FFF)
+    bomb = b"\x02" + b"a" + p16(0x0FFF) + b"".join(b"\xff" + p16(0x0FFF) * 8 for _ in range(400))
+    yield "copy-bomb", b"\x01" + p16(0xB000 | min(0xFFF, len(bomb) - 1)) + bomb
+    yield "raw-short", b"\x01" + p16(0x3FFF) + b"a" * 100
+    yield "raw-exact", b"\x01" + p16(0x3FFF) + b"a" * 4096
+    yield "literal-past-end", b"\x01" + p16(0xB000 | 0x0FFF) + b"\x00" + b"abc"
+    yield "flag-only", b"\x01" + p16(0xB000 | 0) + b"\x00"
+    yield "token-cut", b"\x01" + p16(0xB000 | 2) + b"\x02" + b"a" + b"\x00"
+    yield "two-chunks-second-cut", b"\x01" + p16(0xB000 | 1) + b"\x00" + b"a" + b"\x01"
+
+def systematic_vba(fmt, data):
+    """VBA faults for a workbook file: xls (streams of the file itself) or a zip holding
+    xl/vbaProject.bin"""
+    if fmt == "xls":
+        c = Cfb(data)
+        if not c.ok:
+            return
+        streams = c.streams()
+        for kind, ns in systematic_vba_streams(streams):
+            yield kind, cfb_rebuild(ns)
+        return
+    try:
+        members = zip_members(data)
+    except Exception:
+        return
+    for n, b in members:
+        if n.endswith("vbaProject.bin"):
+            c = Cfb(b)
+            if not c.ok:
+                continue
+            for kind, ns in systematic_vba_streams(c.streams()):
+                yield kind + "@" + n, zip_replace(members, n, cfb_rebuild(ns))
+            k = 0
+            for kind, nb in systematic_cfb(b):
+                k += 1
+                if k % 3 == 0:      # the container faults are enumerated in full on the xls seeds
+                    yield kind + "@" + n, zip_replace(members, n, nb)
+
+# ---------------------------------------------------------------- random record-aware faults
+
+def random_structured(fmt, data, rng):
+    """one random structure-aware fault (falls back to the blind ones)"""
+    try:
+        if fmt == "xls":
+            k = rng.random()
+            if k < 0.35:
+                c = Cfb(data)
+                if c.ok:
+                    pool = list(_sample(systematic_cfb(data), rng, 1))
+                    if pool:
+                        return pool[0]
+            name, stream = xls_workbook_stream(data)
+            if stream is not None and k < 0.9:
+                recs = biff_records(stream)
+                if recs:
+                    i = rng.randrange(len(recs))
+                    o, t, b = recs[i]
+                    faults = list(body_faults(b, window=64))
+                    if faults:
+                        kind, nb = rng.choice(faults)
+                        m = list(recs)
+                        m[i] = (o, t, nb)
+                        return "biff-%04x#%d-%s" % (t, i, kind), xls_with_stream(data, name, biff_join(m, fix_from=o if t == 0x85 else None))
+        elif fmt == "xlsb":
+            members = zip_members(data)
+            bins = [(n, b) for n, b in members if n.endswith(".bin") and READ_PARTS.search(n) and "vbaProject" not in n]
+            if bins and rng.random() < 0.8:
+                n, b = rng.choice(bins)
+                recs = xlsb_records(b)
+                if recs:
+                    i = rng.randrange(len(recs))
+                    o, t, body, hl = recs[i]
+                    faults = list(body_faults(body, window=64))
+                    kind, nb = rng.choice(faults)
+                    m = list(recs)
+                    m[i] = (o, t, nb, hl)
+                    return "xlsb-brt%04x#%d-%s@%s" % (t, i, kind, n), zip_replace(members, n, xlsb_join(m))
+    except Exception:
+        pass
+    return mutate_file(fmt, data, rng, 1)
+
+def _sample(gen, rng, k):
+    """reservoir sample of k items of a generator"""
+    res = []
+    for i, x in enumerate(gen):
+        if len(res) < k:
+            res.append(x)
+        else:
+            j = rng.randrange(i + 1)
+            if j < k:
+                res[j] = x
+    return res
+
+def mutate_structured(fmt, data, rng, faults=1):
+    kinds = []
+    for _ in range(faults):
+        k, data = random_structured(fmt, data, rng)
+        kinds.append(k)
+    return "+".join(kinds), data
+
+def systematic(fmt, data):
+    """the whole systematic pass for one seed file: yields (kind, bytes)"""
+    if fmt == "xls":
+        yield from systematic_cfb(data)
+        yield from systematic_xls(data)
+        yield from systematic_vba(fmt, data)
+    elif fmt == "xlsb":
+        yield from systematic_zip_container(data)
+        yield from systematic_xlsb(data)
+        yield from systematic_vba(fmt, data)
+    else:
+        yield from systematic_zip_container(data)
+        yield from systematic_zip_xml(fmt, data)
+        yield from crafted_xlsx_layouts(data)
+        yield from systematic_vba(fmt, data)
